@@ -20,7 +20,8 @@ def catalogue(include_watershed=True, include_hmax=False, include_hp01=False):
     C["celerity_depth"] = lambda da, aux: da.spec.celerity(depth=12.0)
     C["wavelen"] = lambda da, aux: da.spec.wavelen(depth=30.0)
     C["interp_like"] = lambda da, aux: da.spec.interp_like(_coarser(da))
-    C["rmse"] = lambda da, aux: da.spec.rmse(da.roll(freq=1, roll_coords=False) * 0.5 + 0.03125)
+    # the second operand holds its (labelled) values in another stored direction order than the first: bins pair up by label
+    C["rmse"] = lambda da, aux: da.spec.rmse((da.roll(freq=1, roll_coords=False) * 0.5 + 0.03125).roll(dir=2, roll_coords=True))
     C["tp_discrete"] = lambda da, aux: da.spec.tp(smooth=False)
     C["momf2"] = lambda da, aux: da.spec.momf(2)
     C["momd1"] = lambda da, aux: da.spec.momd(1)
